@@ -303,11 +303,13 @@ def transpose(score: ScoreLike, interval: Interval) -> ScoreLike:
     new_score = copy.deepcopy(score)
     # Reset recursion limit to previous value to avoid side effects
     sys.setrecursionlimit(old_recursion_depth)
-    if isinstance(score, s.Score):
+    # transpose the notes of the copy, not of the argument
+    if isinstance(new_score, s.Score):
         for part in new_score.parts:
-            transpose(part, interval)
-    elif isinstance(score, s.Part):
-        for note in score.notes_tied:
+            for note in part.notes_tied:
+                _transpose_note_inplace(note, interval)
+    elif isinstance(new_score, s.Part):
+        for note in new_score.notes_tied:
             _transpose_note_inplace(note, interval)
     return new_score
 
